@@ -185,11 +185,23 @@ def required : List Param → Nat
 
 /-! ## state -/
 
+/-- finite maps as association lists (one entry per key) -/
+def aget {κ α : Type} [DecidableEq κ] : List (κ × α) → κ → Option α
+  | [], _ => none
+  | (k', a) :: rest, k => if k = k' then some a else aget rest k
+
+def aset {κ α : Type} [DecidableEq κ] : List (κ × α) → κ → α → List (κ × α)
+  | [], k, a => [(k, a)]
+  | (k', a') :: rest, k, a => if k = k' then (k, a) :: rest else (k', a') :: aset rest k a
+
+abbrev Env := List (Var × Val)
+abbrev Statics := List ((FName × Var) × Val)
+
 structure St where
-  /-- locals of the running activation -/
-  env : Var → Val
-  /-- static locals: one cell per (function, name), `none` until first initialised -/
-  statics : FName → Var → Option Val
+  /-- locals of the running activation (unset = null) -/
+  env : Env
+  /-- static locals: one cell per (function, name), absent until first initialised -/
+  statics : Statics
   /-- echoed strings, oldest first -/
   out : List String
 
@@ -198,16 +210,15 @@ abbrev Cur := Option (FName × List Var)
 
 def St.rd (cur : Cur) (s : St) (x : Var) : Val :=
   match cur with
-  | some (f, sv) => if x ∈ sv then (s.statics f x).getD .null else s.env x
-  | none => s.env x
+  | some (f, sv) => if x ∈ sv then (aget s.statics (f, x)).getD .null else (aget s.env x).getD .null
+  | none => (aget s.env x).getD .null
 
 def St.wr (cur : Cur) (s : St) (x : Var) (v : Val) : St :=
   match cur with
   | some (f, sv) =>
-    if x ∈ sv then
-      { s with statics := fun g y => if g = f ∧ y = x then some v else s.statics g y }
-    else { s with env := fun y => if y = x then v else s.env y }
-  | none => { s with env := fun y => if y = x then v else s.env y }
+    if x ∈ sv then { s with statics := aset s.statics (f, x) v }
+    else { s with env := aset s.env x v }
+  | none => { s with env := aset s.env x v }
 
 def St.echo (s : St) (v : Val) : St := { s with out := s.out ++ [v.toStr] }
 
@@ -263,22 +274,19 @@ def switchStep : Out → Step
   | .cont 0 => .bad
 
 /-- bind the parameters: argument if given, else the default, else null -/
-def bindParams : List Param → List Val → (Var → Val) → (Var → Val)
+def bindParams : List Param → List Val → Env → Env
   | [], _, env => env
-  | p :: ps, [], env =>
-    bindParams ps [] (fun y => if y = p.name then p.dflt.getD .null else env y)
-  | p :: ps, v :: vs, env =>
-    bindParams ps vs (fun y => if y = p.name then v else env y)
+  | p :: ps, [], env => bindParams ps [] (aset env p.name (p.dflt.getD .null))
+  | p :: ps, v :: vs, env => bindParams ps vs (aset env p.name v)
 
 /-- first activation initialises the static cells -/
-def initStatics (f : FName) : List (Var × Val) → (FName → Var → Option Val) → (FName → Var → Option Val)
+def initStatics (f : FName) : List (Var × Val) → Statics → Statics
   | [], st => st
   | (x, v) :: rest, st =>
-    initStatics f rest
-      (if (st f x).isNone then (fun g y => if g = f ∧ y = x then some v else st g y) else st)
+    initStatics f rest (if (aget st (f, x)).isNone then aset st (f, x) v else st)
 
 /-- What a call makes of the outcome of the body. -/
-def callResult (callerEnv : Var → Val) : Res Out → Res Val
+def callResult (callerEnv : Env) : Res Out → Res Val
   | .ok .normal s => .ok .null { s with env := callerEnv }
   | .ok (.ret v) s => .ok v { s with env := callerEnv }
   | .ok (.brk _) s => .err { s with env := callerEnv }   -- `break` outside a loop
@@ -323,7 +331,7 @@ def evalE (funs : List FunDecl) : Nat → Cur → Expr → St → Res Val
       else
         callResult s1.env
           (execB funs f (some (g, d.svars)) d.body
-            { env := bindParams d.params vs (fun _ => .null),
+            { env := bindParams d.params vs [],
               statics := initStatics g d.statics s1.statics,
               out := s1.out })
   | f+1, cur, .matchE subj arms dflt, s =>
@@ -471,7 +479,7 @@ def runBodies (funs : List FunDecl) : Nat → Cur → Cases → Block → St →
     | .bad => .err s1
 end
 
-def St.init : St := { env := fun _ => .null, statics := fun _ _ => none, out := [] }
+def St.init : St := { env := [], statics := [], out := [] }
 
 /-- how a run ended -/
 inductive Status where
